@@ -59,7 +59,7 @@ M = [
  ('c17_move_exdev_remove_first', 'C17', 'src/Directory.cpp', "		copy(from, dst);\n		remove(from);", "		remove(from);\n		copy(from, dst);"),
  ('c17_append_truncates_large', 'C17', 'src/TextFile.cpp', "	if (!_file && !open(APPEND))\n		return false;", "	if (!_file && !open(s.length() > 1500 ? WRITE : APPEND))\n		return false;"),
  ('c17_text_bom_offbyone', 'C17', 'src/TextFile.cpp', "		else if (head[0] == 0xef && head[1] == 0xbb && n>=3 && read<byte>() == 0xbf) // UTF8", "		else if (head[0] == 0xef && head[1] == 0xbb && n>3 && read<byte>() == 0xbf) // UTF8"), ('c18_ini_value_trim_one_side', 'C18', 'src/IniFile.cpp', "			(*cursection)[key.trim().replaceme('/', '\\\\')] = value.trim();", "			(*cursection)[key.trim().replaceme('/', '\\\\')] = value;"),
- ('c18_ini_last_line_break', 'C18', 'src/IniFile.cpp', "		if(!line.ok())\n			continue;\n		int i0 = 0;", "		if(!line.ok())\n			continue;\n		if(file.end())\n			break;\n		int i0 = 0;"),
+ ('c18_ini_last_line_break', 'C18', 'src/IniFile.cpp', "		if(!line.ok())\n			continue;\n\n		int i0 = 0;", "		if(!line.ok())\n			continue;\n		if(file.end())\n			break;\n		int i0 = 0;"),
  ('c18_ini_new_key_after_next_header', 'C18', 'src/IniFile.cpp', "				for(j=i+k; j<_lines.length() && _lines[j][0]!='['; j++)\n				{}\n				j--;", "				for(j=i+k; j<_lines.length() && _lines[j][0]!='['; j++)\n				{}"),
  ('c18_csv_quote_not_doubled', 'C18', 'src/TabularDataFile.cpp', "					row << _quote << value.replace(_quote, _equote) << _quote;", "					row << _quote << value << _quote;"),
  ('c18_csv_quote2_ends', 'C18', 'src/TabularDataFile.cpp', "			if (c == '\"')\n			{\n				value << c;\n				state = QUOTE;\n			}", "			if (c == '\"')\n			{\n				value << c;\n				state = BASE;\n			}"),
@@ -113,7 +113,7 @@ def apply(m):
     nl = '\r\n' if '\r\n' in s else '\n'
     o, n = old.replace('\n', nl), new.replace('\n', nl)
     if s.count(o) != 1:
-        raise SystemExit('mutant %s: pattern occurs %d times in %s' % (name, s.count(o), f))
+        raise ValueError('mutant %s: pattern occurs %d times in %s' % (name, s.count(o), f))
     open(p, 'w', newline='').write(s.replace(o, n))
 
 
@@ -152,7 +152,12 @@ def main():
     results = []
     try:
         for m in todo:
-            apply(m)
+            try:
+                apply(m)
+            except ValueError as e:
+                print('%-40s %s SKIPPED (%s)' % (m[0], m[1], e), flush=True)
+                restore()
+                continue
             rc, viol, dt, out = run_check(m[1])
             restore()
             results.append((m[0], m[1], rc, dt, viol))
